@@ -18,11 +18,14 @@ THOROUGH_S = 900
 CHUNK = 30
 
 RULE = ('Each run: up to 4 concurrent channel drivers on the client '
-        '(callback session, direct-tcpip, process API, SFTP client) and the '
+        '(callback session, direct-tcpip, process API, SFTP client, a second '
+        'SSH connection tunnelled through the first to an inner server with '
+        'a process on it) and the '
         'matching server-side scripts issue seeded programs of '
         '{open, write, drain, read, eof, close, abort, wait_closed, exit, '
         'remote-forward request, sftp requests}; one fault per run: reset or '
-        'EOF of the TCP connection after a drawn packet/byte of either '
+        'EOF of the TCP connection (or of the tunnel\'s inner leg) after a '
+        'drawn packet/byte of either '
         'direction (any point from the version exchange on), a permanent '
         'stall with keepalive enabled, a DISCONNECT/close/abort issued by '
         'either side at a drawn moment, or cancellation of a caller task. '
@@ -45,7 +48,8 @@ STUB = ['event loop + clock', 'TCP sockets/listener', 'DNS', 'executor',
         'OS randomness']
 PROBES = ['fault_rst', 'fault_eof', 'fault_stall', 'cut_before_auth',
           'cut_with_channels', 'cancelled_task',
-          'op_error', 'sftp_started', 'teardown_server_side']
+          'op_error', 'sftp_started', 'teardown_server_side',
+          'tunnel_opened', 'tunnel_by_name', 'cut_inner_leg']
 
 _sandbox = [None]
 
@@ -65,6 +69,18 @@ def sandbox():
         with open(os.path.join(d, 'sub', 'b.bin'), 'wb') as f:
             f.write(bytes(range(256)) * 400)
 
+        # for tunnels given as a string: asyncssh makes the intermediate
+        # connection itself, from configuration only
+        from simkit.world import pubkey
+        hk = pubkey('host_ed25519').export_public_key('openssh').decode()
+
+        with open(os.path.join(d, 'known_hosts'), 'w') as f:
+            f.write('127.0.0.1,inner,10.0.0.9 ' + hk)
+
+        with open(os.path.join(d, 'ssh_config'), 'w') as f:
+            f.write('Host *\n  User u\n  UserKnownHostsFile %s\n' %
+                    os.path.join(d, 'known_hosts'))
+
         _sandbox[0] = d
         import atexit
         atexit.register(shutil.rmtree, d, True)
@@ -74,7 +90,7 @@ def sandbox():
 
 # -- plan ------------------------------------------------------------------------------
 
-CLIENT_KINDS = ['cb', 'cb', 'tcp', 'proc', 'proc', 'sftp']
+CLIENT_KINDS = ['cb', 'cb', 'tcp', 'proc', 'proc', 'sftp', 'tunnel']
 
 
 def gen_script(rng, kind, side):
@@ -117,9 +133,13 @@ def gen_plan(rng):
         chans.append({
             'kind': kind,
             'req': rng.choice(['exec', 'exec', 'shell', 'pty-exec']),
-            'c': gen_script(rng, kind, 'c'),
-            's': gen_script(rng, 'cb' if kind == 'tcp' else kind, 's'),
+            'c': gen_script(rng, 'proc' if kind == 'tunnel' else kind, 'c'),
+            's': gen_script(rng, 'cb' if kind == 'tcp' else
+                            'proc' if kind == 'tunnel' else kind, 's'),
             'start_delay': rng.choice([0, 0, 1, 3]),
+            # tunnel drivers: through the existing connection, or let
+            # asyncssh open (and own) the intermediate connection
+            'via': rng.choice(['conn', 'conn', 'string']),
         })
 
     fk = rng.weighted([('rst', 30), ('eof', 20), ('stall', 10),
@@ -129,6 +149,9 @@ def gen_plan(rng):
     if fk in ('rst', 'eof', 'stall'):
         fault.update({
             'dir': rng.choice(['c2s', 's2c']),
+            # which TCP connection: 0 = client<->server, 1 = the first leg
+            # a tunnel driver makes the server open towards the inner server
+            'leg': rng.weighted([(0, 5), (1, 1)]),
             # writes 0..~8 are the handshake and auth, later ones channels
             'index': rng.weighted([(rng.below(10), 4),
                                    (rng.below(40), 4),
@@ -176,7 +199,7 @@ def valid_plan(plan):
             return False
 
         for ch in plan['channels']:
-            if ch['kind'] not in ('cb', 'tcp', 'proc', 'sftp'):
+            if ch['kind'] not in ('cb', 'tcp', 'proc', 'sftp', 'tunnel'):
                 return False
 
             for op in ch['c'] + ch['s']:
@@ -273,8 +296,10 @@ class TSess(Sess, asyncssh.SSHTCPSession):
 
 class OpsServer(RecServer):
     def __init__(self, world):
-        super().__init__(world)
-        self.run = world.run
+        run = world.run
+        super().__init__(world, name='server' if not run.server_owners
+                         else 'server-%d' % len(run.server_owners))
+        self.run = run
         self.run.server_owners.append(self)
 
     def session_requested(self):
@@ -292,12 +317,28 @@ class OpsServer(RecServer):
     def connection_requested(self, dest_host, dest_port, orig_host,
                              orig_port):
         run = self.run
+
+        if dest_port == 2222:
+            # a tunnelled SSH connection: relay to the inner server for real
+            return True
+
         sess = TSess(run, 'St%d' % (dest_port - 1000))
         sess.command = str(dest_port - 1000)
         return sess
 
     def server_requested(self, listen_host, listen_port):
         return True
+
+
+class InnerServer(OpsServer):
+    """Owner of a connection that arrived through a tunnel"""
+
+    def __init__(self, world):
+        run = world.run
+        RecServer.__init__(self, world,
+                           name='server2-%d' % len(run.inner_owners))
+        self.run = run
+        run.inner_owners.append(self)
 
 
 class Run:
@@ -309,6 +350,10 @@ class Run:
         self.sessions = []
         self.server_owners = []
         self.clients = []
+        self.inner_owners = []
+        self.inner_clients = []
+        self.inner_acceptor = None
+        self.own_tunnels = []
         self.sess_count = 0
         self.conn = None
         self.acceptor = None
@@ -431,6 +476,33 @@ class Run:
                 if self.plan['channels'][i].get('final_wait', True):
                     proc.stdin.write_eof() if not proc.channel.is_closing() \
                         else None
+            elif kind == 'tunnel':
+                def cfactory():
+                    c = RecClient(self.world, name='client2-%d' % i)
+                    self.inner_clients.append(c)
+                    return c
+
+                if ch.get('via') == 'string':
+                    sim.probes['tunnel_by_name'] += 1
+                    conn2 = await asyncssh.connect(
+                        'inner', 2222, tunnel='127.0.0.1:22',
+                        client_factory=cfactory,
+                        **client_opts(config=[os.path.join(sandbox(),
+                                                           'ssh_config')],
+                                      **self.ka))
+                    self.own_tunnels.append(conn2)
+                else:
+                    conn2 = await asyncssh.connect(
+                        'inner', 2222, tunnel=conn, client_factory=cfactory,
+                        **client_opts(**self.ka))
+
+                self.nopened += 1
+                sim.probes['tunnel_opened'] += 1
+                proc = await conn2.create_process('cmd:%d' % i, encoding=None,
+                                                  window=self.plan['window'])
+                await self.do_ops(ch['c'], proc.channel, name, proc=proc)
+                conn2.close()
+                await conn2.wait_closed()
             else:
                 sftp = await conn.start_sftp_client()
                 self.nopened += 1
@@ -503,6 +575,14 @@ class Run:
         f = plan['fault']
         ka = dict(keepalive_interval=15, keepalive_count_max=2) \
             if f['kind'] == 'stall' else {}
+        tunnels = any(ch['kind'] == 'tunnel' for ch in plan['channels'])
+
+        # keepalive only on the connection whose link will stall (on a
+        # healthy connection it would keep the world from going quiet)
+        if tunnels and f.get('leg', 0):
+            self.ka, ka = ka, {}
+        else:
+            self.ka = {}
 
         def client_factory():
             c = RecClient(world)
@@ -512,6 +592,13 @@ class Run:
         self.acceptor = await asyncssh.listen(
             '127.0.0.1', 22, server_factory=lambda: OpsServer(world),
             **server_opts(encoding=None, window=plan['window'], **ka))
+
+        if any(ch['kind'] == 'tunnel' for ch in plan['channels']):
+            sim.net.dns['inner'] = ['10.0.0.9']
+            self.inner_acceptor = await asyncssh.listen(
+                '10.0.0.9', 2222, server_factory=lambda: InnerServer(world),
+                **server_opts(encoding=None, window=plan['window'],
+                              **self.ka))
 
         async def do_connect():
             return await asyncssh.connect(
@@ -566,6 +653,17 @@ class Run:
             conn.close()
 
         await conn.wait_closed()
+
+        # connections that went through an intermediate connection asyncssh
+        # opened for them are independent of `conn`: close them too; that
+        # must take their intermediate connection down with them
+        for c2 in self.own_tunnels:
+            if td == 'client_abort':
+                c2.abort()
+            else:
+                c2.close()
+
+            await c2.wait_closed()
 
 
 GRAMMAR_AFTER = {
@@ -626,8 +724,17 @@ def run_plan(plan, sched_seed=None, sched_replay=None):
     wire = []
 
     if f['kind'] in ('rst', 'eof', 'stall'):
+        seen = []
+        leg = f.get('leg', 0) if any(ch['kind'] == 'tunnel'
+                                     for ch in plan['channels']) else 0
+
         def on_connection(conn):
-            if not wire:
+            seen.append(conn)
+
+            if not wire and len(seen) == leg + 1:
+                if leg:
+                    sim.probes['cut_inner_leg'] += 1
+
                 wire.append(CutWire(conn, f['dir'], f['index'], f['off'],
                                     f['kind']))
 
@@ -658,7 +765,10 @@ def run_plan(plan, sched_seed=None, sched_replay=None):
     if not sim.loop.capped:
         if conn_gone():
             # connection is gone: nothing may still be waiting
-            hung = [t.sim_name for t in sim.tracked if not t.done()]
+            indep = {'drv-c%d' % i for i, ch in enumerate(plan['channels'])
+                     if ch['kind'] == 'tunnel' and ch.get('via') == 'string'}
+            hung = [t.sim_name for t in sim.tracked if not t.done() and
+                    t.sim_name not in indep]
 
             if hung:
                 world.violation(
@@ -673,6 +783,9 @@ def run_plan(plan, sched_seed=None, sched_replay=None):
     if not sim.loop.capped:
         if run.acceptor is not None:
             run.acceptor.close()
+
+        if run.inner_acceptor is not None:
+            run.inner_acceptor.close()
 
         world.run_phase()
 
@@ -695,7 +808,8 @@ def run_plan(plan, sched_seed=None, sched_replay=None):
                         '%s: session got connection_made but never '
                         'connection_lost (log %r)' % (sess.name, sess.log))
 
-        for owner in run.clients + run.server_owners:
+        for owner in run.clients + run.server_owners + run.inner_clients + \
+                run.inner_owners:
             evs = [e[2] for e in world.cb if e[1] == owner.name]
 
             if len(owner.lost) > 1:
@@ -703,7 +817,9 @@ def run_plan(plan, sched_seed=None, sched_replay=None):
                                 'times' % (owner.name, len(owner.lost)))
 
         # owner logs (one client, one server owner): lost exactly once, last
-        for who in ('client', 'server'):
+        for who in ['client'] + \
+                [o.name for o in run.server_owners + run.inner_clients +
+                 run.inner_owners]:
             evs = [e[2] for e in world.cb if e[1] == who]
 
             if evs:
